@@ -12,4 +12,11 @@ CASES = [
                     ("w5", "encoder restructuring (closures, iterator chains)"), ("w6", "builder macros / iana macro / guards rewritten"),
                     ("w7", "sign/verify/decrypt flows (create via try_create, shared private producers)"),
                     ("w8", "common/util rewritten (label ordering by key, helper fns)"))
+] + [
+    {"id": "benign3-%s" % m, "props": ALL, "expect": "quiet", "patches": [("selftest/benign/%s.diff" % m, False)], "note": what}
+    for m, what in (("m1", "clippy pedantic fixes in header/common"), ("m2", "error-handling tidy-up, new private ValueTryAs method"),
+                    ("m3", "#[must_use]/#[inline]/const/doc comments"), ("m4", "renames, import order, into_iter, T::default()"),
+                    ("m5", "two new IANA algorithm values"), ("m6", "From/Display impls for Label"),
+                    ("m7", "ClaimsSet decoder simplified"), ("m8", "PartyInfo encoder with a helper closure"),
+                    ("m9", "bstr/nil helpers in util"), ("m10", "builder tidy-up"))
 ]
